@@ -1,7 +1,7 @@
 """Contracts for models/base.py (L2): detach, tokens, equality/hash of tokens, __deepcopy__ -- against the abstract store interface
 (view, vlen, per-token store/pos) that restates the proved L0 contracts."""
 
-UFUNS = {'text_eq': ['int', 'int', 'bool'], 'str_hash': ['int', 'int', 'int'], 'rule_of': ['int', 'int']}
+UFUNS = {'text_eq': ['int', 'int', 'bool'], 'str_hash': ['int', 'int', 'int'], 'rule_of': ['int', 'int'], 'EQ': ['int', 'int', 'bool'], 'TR': ['int', 'int', 'int'], 'TEQ': ['int', 'int', 'bool']}
 
 @macro
 def AbsInv(s):
@@ -151,3 +151,67 @@ def _(self, memo):
                 and as_ref(sel(result.g_ts.g_view, k), 'RawTokenModel').RULE == as_ref(sel(self.g_ts.g_view, self.g_first.g_pos + k), 'RawTokenModel').RULE), sel(result.g_ts.g_view, k)))
     ensures(forall(lambda k: implies(0 <= k and k < result.g_ts.g_vlen,
                 sel(elems(as_ref(result.g_tr, 'MappingTokenTransformer')._map), sel(self.g_ts.g_view, self.g_first.g_pos + k)) == sel(result.g_ts.g_view, k)), sel(result.g_ts.g_view, k)))
+
+# ---- transformers, leaf clone/reattach, tree equality dispatch (C11, C20, C05)
+# transform is virtual: TR(transformer, token) is its result (one contract on the abstract base, the two implementations are verified against their own)
+@contract('TokenTransformer.transform')
+def _(self, token):
+    modifies()
+    functional('TR')
+
+@contract('IdentityTokenTransformer.transform')
+def _(self, token):
+    modifies()
+    ensures(result is token)
+
+@contract('MappingTokenTransformer.transform')
+def _(self, token):
+    requires(self != None and self._map != None and token != None and sel(elems(self._map), token) != 0)
+    modifies()
+    ensures(result == sel(elems(self._map), token))
+
+# a leaf is not copied by clone/reattach: it is whatever the transformer makes of it (the fresh copy under a deep copy, itself under the identity)
+@contract('RawTokenModel.clone')
+def _(self, token_store, token_transformer):
+    requires(self != None and token_transformer != None)
+    modifies()
+    ensures(result == TR(token_transformer, self))
+
+@contract('RawTokenModel.reattach')
+def _(self, token_store, token_transformer):
+    requires(self != None and token_transformer != None)
+    modifies()
+    ensures(result == TR(token_transformer, self))
+
+@contract('RawModel._reattach')
+def _(self, token_store, token_transformer):
+    modifies('RawModel.g_ts', 'RawTreeModel._token_store')
+
+@contract('RawTreeModel.reattach')
+def _(self, token_store, token_transformer):
+    requires(self != None)
+    modifies('RawModel.g_ts', 'RawTreeModel._token_store')
+    ensures(result is self)
+
+@contract('RawTreeModel.token_store')
+def _(self):
+    requires(self != None)
+    modifies()
+    ensures(result is self._token_store)
+
+# tree equality: a tree, token for token equal (RULE and text, see RawTokenModel.__eq__) and structurally equal (_eq: virtual, proved per generated class in l4.templates)
+@contract('RawTreeModel._eq')
+def _(self, other):
+    modifies()
+    functional('TEQ')
+
+@contract('RawTreeModel.__eq__')
+def _(self, other):
+    types(other='RawTreeModel')
+    requires(self != None and self.g_ts != None and AbsInv(self.g_ts) and self.g_ts.g_vlen >= 1 and In(self.g_ts, self.g_first) and In(self.g_ts, self.g_last) and self.g_first.g_pos <= self.g_last.g_pos)
+    requires(implies(other != None, other.g_ts != None and AbsInv(other.g_ts) and other.g_ts.g_vlen >= 1 and In(other.g_ts, other.g_first) and In(other.g_ts, other.g_last) and other.g_first.g_pos <= other.g_last.g_pos))
+    modifies('list[RawTokenModel]@fresh')
+    after_call('RawModel.tokens', 'g_t1')
+    after_call('RawModel.tokens', 'g_t2')
+    ensures(implies(other is None, result == False))
+    ensures(implies(other != None, result == (as_list(g_t1, 'RawTokenModel') == as_list(g_t2, 'RawTokenModel') and TEQ(self, other))))
